@@ -539,7 +539,7 @@ func TestCampaignCorpus(t *testing.T) {
 	}
 }
 
-var rePrefixUpdateExp = regexp.MustCompile(`(\+\+|--)[\w$.\[\]]+\*\*`)
+var rePrefixUpdateExp = regexp.MustCompile(`(\+\+|--)[^;,(){}]*\*\*`)
 var rePIWithGT = regexp.MustCompile(`<\?(?:[^?>]|\?+[^?>])*>`)
 var reOptChainTemplate = regexp.MustCompile("\\?\\.[\\w$.]*`")
 var reInfinityTarget = regexp.MustCompile(`\bInfinity\s*(=[^=]|\+\+|--|\bin\b|\bof\b|[\]},])|(\+\+|--)\s*Infinity\b`)
